@@ -283,6 +283,15 @@ Spawn(c, f) ==
   /\ xflag' = xflag @@ (c :> FALSE)
   /\ UNCHANGED <<edup, shown, emitted, result, phase, unm, nfm, exit>>
 
+\* The forked worker is about to construct its CppCheck: its suppression lists are the pristine template, i.e. the
+\* command-line state only - no inline entry and no checked/matched flag of a file analysed earlier in this run
+\* (the parent's live list has those merged in; a worker starting from it would report state back twice and,
+\* because the pipe encoding of an entry is lossy, would analyse with degraded inline suppressions)
+ChildStart(c) ==
+  /\ c \in DOMAIN chst /\ chst[c].alive /\ wk[c].st = "pre"
+  /\ \A k \in DOMAIN sl[c] : ~sl[c][k].inl /\ ~sl[c][k].checked /\ ~sl[c][k].matched
+  /\ UNCHANGED vars
+
 \* PipeWriter::reportErr for a finding that was forwarded (internal-severity messages bypass the pipeline)
 SendErr(c, x) ==
   /\ \/ wk[c].st = "fwd" /\ wk[c].x = x /\ wk' = [wk EXCEPT ![c].st = "sending"]
